@@ -563,6 +563,35 @@ impl<'a> Gen<'a> {
         Some((v.id, t))
     }
 
+    /// effect-free small integer (literal, variable, or a sum of those)
+    fn pure_small(&mut self, _d: usize) -> Expr {
+        self.spend(1);
+        let leaf = |g: &mut Self| match g.pick_var(Ty::Small) {
+            Some(v) if g.rng.chance(1, 2) => Expr::Var(v.id),
+            _ => int(g.rng.range(0, 4)),
+        };
+        let a = leaf(self);
+        if self.rng.chance(1, 4) {
+            let c = leaf(self);
+            Expr::Arith(ArithOp::Add, b(a), b(c))
+        } else {
+            a
+        }
+    }
+    /// effect-free number (sometimes of another kind, for the error class)
+    fn pure_number(&mut self, _d: usize) -> Expr {
+        self.spend(1);
+        match self.rng.below(8) {
+            0 => self.literal(Ty::Float),
+            1 => self.literal(Ty::Str),
+            2 | 3 => match self.pick_var(Ty::Int) {
+                Some(v) => Expr::Var(v.id),
+                None => self.literal(Ty::Int),
+            },
+            _ => self.literal(Ty::Int),
+        }
+    }
+
     fn live_numeric_unfrozen(&mut self) -> Option<u32> {
         let c = self.live_of(|v| matches!(v.ty, Ty::Int) && !v.frozen);
         if c.is_empty() { None } else { Some(c[self.rng.below(c.len())].id) }
@@ -742,6 +771,13 @@ impl<'a> Gen<'a> {
                     let v = c[self.rng.below(c.len())].id;
                     self.spend(1);
                     let i = if self.rng.chance(1, 4) { self.range_expr(d + 1, true) } else { self.expr(Ty::Small, d + 1) };
+                    if self.rng.chance(1, 3) {
+                        // compound assignment to an element (pure index and operand: F-C01-4)
+                        let op = *self.rng.pick(&[ArithOp::Add, ArithOp::Sub, ArithOp::Mul, ArithOp::Div, ArithOp::Rem, ArithOp::Pow]);
+                        let i = self.pure_small(d + 1);
+                        let rhs = if op == ArithOp::Pow { int(self.rng.range(0, 3)) } else { self.pure_number(d + 1) };
+                        return Expr::IndexOpAssign(op, v, b(i), b(rhs));
+                    }
                     let t = self.elem_ty();
                     let rhs = self.retained(t, d + 1);
                     Expr::IndexAssign(v, b(i), b(rhs))
@@ -936,9 +972,10 @@ impl<'a> Gen<'a> {
             let y = self.vars.iter_mut().find(|y| y.id == v).unwrap();
             y.frozen = w.0;
         }
-        // the loop variable is only bound when the loop ran
+        // after the loop the variable is null (exhaustion) or the item of the round that broke out
         if let Some(y) = self.vars.iter_mut().find(|y| y.id == x) {
-            y.live = false;
+            y.live = true;
+            y.ty = Ty::Any;
             y.frozen = true;
         }
         Expr::For(x, b(it), b(body))
